@@ -10,11 +10,29 @@ import (
 	"verif/checker/internal/prog"
 )
 
-// firstLit returns the first function literal in source order inside n.
+// firstLit returns the iterator literal inside n: the first function literal (in source order)
+// whose only parameter is a yield function (func(...) bool); when there is none, the first
+// literal. (A comparator or predicate literal written before the iterator is not it.)
 func firstLit(n ast.Node) *ast.FuncLit {
 	lits := litsIn(n)
 	if len(lits) == 0 {
 		return nil
+	}
+	if curProg != nil {
+		for _, l := range lits {
+			if l.Type.Params == nil || len(l.Type.Params.List) != 1 || l.Type.Results != nil {
+				continue
+			}
+			info := curProg.InfoAt(l.Pos())
+			if info == nil {
+				continue
+			}
+			if sig, ok := info.TypeOf(l.Type.Params.List[0].Type).(*types.Signature); ok && sig.Results().Len() == 1 {
+				if b, ok := sig.Results().At(0).Type().Underlying().(*types.Basic); ok && b.Kind() == types.Bool {
+					return l
+				}
+			}
+		}
 	}
 	return lits[0]
 }
@@ -847,6 +865,7 @@ func countedLoop(info *types.Info, loop ast.Stmt) (ast.Expr, bool) {
 		}
 		// the counter is the header variable the condition tests; other header variables
 		// (for i, cursor := 0, 0; ...) do not matter for the iteration count
+		cond = orientCmp(cond, func(e ast.Expr) bool { return prog.IdentObj(info, e) == prog.IdentObj(info, inc.X) })
 		iv := prog.IdentObj(info, cond.X)
 		k := -1
 		for i, l := range as.Lhs {
